@@ -56,21 +56,36 @@ def run(ctx):
         fnp = 'io_loop::IoLoop::run_io_loop'
         evs, _ = ctx.events(fnp)
         site = ctx.site(fnp)
-        scr = D.script_of(evs)
         LEN = 'serialize::SealableOutputBuffer::len(self.inner.outbuf)'
-        # canonical guard forms: a conjunction is a chain of guards, `len > hw` is (hw < len), `len <= lw` is (lw < len) failing,
-        # and the else of `listening && len > hw` is the disjunction of the negations
-        ABOVE = '(self.buffered_writes_high_water < %s)' % LEN
-        HI = 'if($m2) > if(%s)' % ABOVE
-        NOT_HI = 'if((!$m2 || !%s))' % ABOVE
-        LO = 'unless($m2) > unless((self.buffered_writes_low_water < %s))' % LEN
-        pre = 'loop > unless(mio::Events::is_empty($m1)) > unless(value:is_done(self, state)) > '
-        want = [pre + '%s > io_loop::Inner::deregister_nonzero_channels(self.inner, self.poll)' % HI,
-                pre + '%s > $m2 = false' % HI,
-                pre + '%s > %s > io_loop::Inner::reregister_nonzero_channels(self.inner, self.poll)' % (NOT_HI, LO),
-                pre + '%s > %s > $m2 = true' % (NOT_HI, LO)]
-        got = [l for l in scr if 'register_nonzero_channels' in l or l.endswith('$m2 = false') or l.endswith('$m2 = true')]
-        r.eq('edges', got, want, site, why='throttle strictly above the high-water mark, resume at or below the low-water mark, after each event batch')
+        # read off the loop's path table (helpers read through): on every path of one loop iteration that gets past the
+        # event batch, channels are de-registered exactly when listening and above the high-water mark, re-registered
+        # exactly when not listening and at or below the low-water mark, and the flag follows
+        rows = P.table(ctx, fnp, ['self', 'stream', 'state', 'handle_event', 'have_written_to_socket', 'is_done'])
+        ABOVE = ('(self.buffered_writes_high_water < %s)' % LEN, True)
+        NOT_ABOVE_LOW = ('(self.buffered_writes_low_water < %s)' % LEN, False)
+        LISTEN, NOT_LISTEN = ('$m2', True), ('$m2', False)
+        DEREG, REREG = 'io_loop::Inner::deregister_nonzero_channels(self.inner, self.poll)', 'io_loop::Inner::reregister_nonzero_channels(self.inner, self.poll)'
+        bad = []
+        n_de = n_re = 0
+        for x in rows:
+            eff = [e for e in x.effects if e in (DEREG, REREG) or e.startswith('$m2 = ')]
+            cs = set(c for c in x.conds if isinstance(c[1], bool))
+            if DEREG in eff:
+                n_de += 1
+                if eff != [DEREG, '$m2 = false'] or not {LISTEN, ABOVE} <= cs:
+                    bad.append(('deregister', x.cond_strs(), eff))
+            elif REREG in eff:
+                n_re += 1
+                if eff != [REREG, '$m2 = true'] or not {NOT_LISTEN, NOT_ABOVE_LOW} <= cs:
+                    bad.append(('reregister', x.cond_strs(), eff))
+            else:
+                if eff:
+                    bad.append(('flag-without-action', x.cond_strs(), eff))
+                if {LISTEN, ABOVE} <= cs or {NOT_LISTEN, NOT_ABOVE_LOW} <= cs:
+                    bad.append(('no-action-past-a-mark', x.cond_strs(), eff))
+        r.check('edges', not bad and n_de >= 1 and n_re >= 1, site, built=bad[:4] or {'deregistering paths': n_de, 're-registering paths': n_re},
+                expected='deregister + flag=false iff listening && len > high water; reregister + flag=true iff !listening && len <= low water',
+                why='throttle strictly above the high-water mark, resume at or below the low-water mark, after each event batch')
         snaps = [S.show(e.term) for e in evs if e.kind == 'snapshot' and S.show(e.lhs) == '$m2']
         r.eq('starts-listening', snaps, ['true'], site)
         tr = [e for e in evs if e.kind == 'try' and 'register_nonzero_channels' in S.show(e.term)]
